@@ -140,7 +140,16 @@ structure D where
   cfgs : List Cfg := []
   net : Net := Net.init [] 0
   prev : List IObs := []          -- previous IMPLEMENTATION observation (judge state)
+  prevPv : List String := []      -- previous IMPLEMENTATION process views, per instance
   deriving Inhabited
+
+/-- the per-instance process views of an observation (`pv=[a/b/c]`) -/
+def parsePv (obs : String) : List String :=
+  match obs.splitOn "pv=[" with
+  | _ :: rest :: _ => match rest.splitOn "]" with
+    | inner :: _ => inner.splitOn "/"
+    | [] => []
+  | _ => []
 
 /-- an injected (duplicated / stale / forged) message, spelled out by the harness -/
 def parseInjected (spec : List String) : Option (Option Op) :=
@@ -172,6 +181,8 @@ def showFates (g : Net) : String :=
 def parseAct (rest : List String) : Option Act :=
   match rest with
   | ["fates"] => some .nop
+  | ["prm", i, p] => some (.prm i.toNat! p.toNat!)
+  | ["inject", j, "prem", src, p] => some (.injectPrem j.toNat! src.toNat! p.toNat!)
   | ["inject", j, "pev", src, p, st, ex, et] =>
     some (.injectPev j.toNat! src.toNat! p.toNat! ((Supv.Proc.PState.ofCode st.toNat!).getD .unknown) (s2b ex) et.toNat!)
   | ["inject", j, "info", src, snap] =>
@@ -190,6 +201,7 @@ def parseAct (rest : List String) : Option Act :=
   | ["exec", i, j] => some (.exec i.toNat! j.toNat!)
   | ["deliver", j] => some (.deliver j.toNat!)
   | ["deliver", j, _origin] => some (.deliver j.toNat!)
+  | ["deliver", j, _origin, _kind] => some (.deliver j.toNat!)
   | ["crash", i] => some (.crash i.toNat!)
   | ["restart", i] => some (.restart i.toNat!)
   | ["cut", i, j] => some (.cut i.toNat! j.toNat!)
@@ -237,11 +249,23 @@ def stepLine (d : D) (line : String) : D × String :=
       let fresh := match rest with | ["restart", i] => [i.toNat!] | _ => []
       let delivery := match rest with
         | ["deliver", j, o] => match j.toNat?, o.toNat? with | some j, some o => some (j, o) | _, _ => none
+        | ["deliver", j, o, _] => match j.toNat?, o.toNat? with | some j, some o => some (j, o) | _, _ => none
         | _ => none
-      let verdicts := if cur.length == n then judge d.cfgs n d.prev cur implObs fresh delivery else ["unparsable"]
+      let verdicts0 := if cur.length == n then judge d.cfgs n d.prev cur implObs fresh delivery else ["unparsable"]
+      -- C13: process state / removal / disability events only count from peers that passed the handshake (CHECKED or RUNNING)
+      let curPv := parsePv implObs
+      let vpv := match delivery with
+        | some (dst, origin) =>
+          let st := (d.prev.getD dst default).inst.getD origin 0
+          let isPub := match rest with | ["deliver", _, _, "p"] => true | _ => false
+          if isPub && origin != dst && st != 2 && st != 3 && !d.prevPv.isEmpty && curPv.getD dst "" != d.prevPv.getD dst ""
+          then [s!"C13-process-data-from-unadmitted:{dst}:{origin}"] else []
+        | none => []
+      let verdicts := verdicts0 ++ vpv
       let j := if verdicts.isEmpty then "J:ok" else "J:" ++ ";".intercalate verdicts
       let ft := match rest with | ["fates"] => " | F:" ++ showFates g' | _ => ""
-      ({ d with net := g', prev := if cur.length == n then cur else d.prev }, obs g' o ++ " | " ++ j ++ ft)
+      ({ d with net := g', prev := if cur.length == n then cur else d.prev, prevPv := if curPv.isEmpty then d.prevPv else curPv },
+       obs g' o ++ " | " ++ j ++ ft)
   | _ => (d, "bad-op")
 
 def main : IO Unit := runLoop ({} : D) stepLine
